@@ -131,6 +131,7 @@ def check_safe_duration_cast(prog, rep):
 
 
 def run(prog, rep):
+    check_chrono_casts(prog, rep, 'R15.10')
     rep.rule('R15.1', 'SafeDurationCast (every instantiation): no signed overflow on any cell; a value is returned only unwrapped and equal to '
                       'count*num/den in exact arithmetic; otherwise std::out_of_range', floor=40)
     check_safe_duration_cast(prog, rep)
@@ -831,3 +832,76 @@ def check_negative_unsigned(prog, rep):
                         'ISO duration parser for a target with signed rep %s refuses every negative text' % m.group(1).strip(), {'instantiation': f.id}, func=f.id)
     if n < 2:
         raise AnalysisBroken('R15.9: the sign flag of the ISO duration parser was found in %d instantiation(s) only' % n)
+
+
+def check_chrono_casts(prog, rep, rule):
+    """std::chrono::round / floor / ceil / duration_cast / time_point_cast convert to the target representation with a bare static_cast.
+    Inside the parsers of convert_chrono.h the target may be any user-chosen duration, so such a call is allowed only when it cannot
+    narrow: the representation it converts to is at least as wide as the one it converts from (the range of a narrower target is then
+    checked by SafeDurationCast / SafeAddDuration, R15.1 / R15.2). Instantiations with 8- and 16-bit sub-second representations are in
+    the witness."""
+    import re
+    from bsv.dtab import INT_TYPES
+    rep.rule(rule, 'convert_chrono.h: no std::chrono rounding / cast converts into an integer representation narrower than its source '
+                   '(a fraction of a second rounded straight into an 8- or 16-bit representation wraps before any range check)', floor=4)
+    seen = {}
+    narrow_inst = False
+    for f in sorted(prog.funcs.values(), key=lambda g: g.id):
+        if f.body is None or not f.relfile.endswith('conversion_detail/convert_chrono.h'):
+            continue
+        frac_vars = set()
+        for n in f.walk():
+            if n['k'] == 'CallExpr' and (f.callee(n) or {}).get('n') == 'ParseSecondFractions':
+                for a in n.get('c', [])[1:]:
+                    for x in f.walk(a):
+                        if x['k'] == 'DeclRefExpr' and x.get('dk') == 'Var':
+                            frac_vars.add(x.get('d'))
+        for n in f.walk():
+            if n['k'] != 'CallExpr':
+                continue
+            c = f.callee(n) or {}
+            if c.get('n') not in ('round', 'floor', 'ceil', 'duration_cast', 'time_point_cast') or not (c.get('q') or '').startswith('std::chrono'):
+                continue
+            ta = c.get('targs', '')
+            m = re.match(r'\s*std::chrono::(?:time_point<[^,]+,\s*)?duration<([^,>]+)', ta)
+            src = f.type(n['c'][1]) if len(n.get('c', [])) > 1 else ''
+            ms = re.search(r'duration<([^,>]+)', src)
+            if not m or not ms:
+                continue
+            trep, srep = m.group(1).strip(), ms.group(1).strip()
+            ti, si = INT_TYPES.get(trep), INT_TYPES.get(srep)
+            if ti is None or si is None:
+                continue
+            if 'signed char' in f.id or 'short' in f.id:
+                narrow_inst = True
+            key = (f.relfile, n['l'])
+            st = seen.setdefault(key, {'f': f, 'n': n, 'bad': None, 'count': 0})
+            st['count'] += 1
+            if ti[0] < si[0] and st['bad'] is None:
+                # a source known to be a fraction of one second (the value ParseSecondFractions produced, R15.7) converts to at most
+                # one second's worth of target units: no wrap when the target representation holds that many
+                arg = n['c'][1]
+                frac = any((x['k'] == 'DeclRefExpr' and x.get('d') in frac_vars) or (x['k'] == 'MemberExpr' and x.get('m') == 'SecFractions')
+                           for x in f.walk(arg))
+                mr = re.search(r'duration<[^,>]+,\s*std::ratio<(\d+),\s*(\d+)>', ta)
+                num, den = (int(mr.group(1)), int(mr.group(2))) if mr else (1, 1)
+                per_second = -(-den // num) if den > num else 1
+                limit = (1 << (ti[0] - 1)) - 1 if ti[1] else (1 << ti[0]) - 1
+                if frac and per_second <= limit:
+                    continue
+                st['bad'] = (f, n, c.get('n'), trep, srep)
+    if not seen:
+        raise AnalysisBroken('%s: no std::chrono conversion found in convert_chrono.h' % rule)
+    if not narrow_inst:
+        rep.defer_broken('%s: no parser instantiation with an 8- or 16-bit representation in the facts (witness/w_convert.cpp)' % rule)
+    for key, st in sorted(seen.items()):
+        rep.touch(st['f'])
+        site = 'convert_chrono.h:%d' % key[1]
+        if st['bad'] is None:
+            rep.ok(rule, site, sample={'site': st['f'].loc(st['n']), 'instantiations': st['count']})
+        else:
+            bf, bn, nm, trep, srep = st['bad']
+            rep.finding(rule, '%s|std::chrono::%s into a narrower representation' % (site, nm), bf.loc(bn),
+                        'std::chrono::%s converts a duration counted in %s into one counted in %s: the conversion wraps before any range check '
+                        '(e.g. "PT0.2S" into duration<int8_t, std::milli> gives -56 ms instead of std::out_of_range)' % (nm, srep, trep),
+                        {'instantiation': bf.id[:200]}, func=bf.id)
